@@ -42,8 +42,17 @@ try:
 except Exception:
     _norm = set()
 
+try:
+    _cfg_fns = set(json.load(open(os.path.join(_ROOT, "cfg_fns.json"))))
+except Exception:
+    _cfg_fns = set()
+
 def relevant(pid, key):
     base = key.split("#")[0]
+    if pid == "C16":
+        # the functions that contain a cfg(feature = ...) site (tools/cfg_fns.json, regenerated with the pins):
+        # only there can the std and no_std builds take different paths inside one function
+        return base in _cfg_fns
     if pid == "C04":
         return base in _norm or re.search(r"::(eq|cmp|partial_cmp|hash|clone_from|cmp_slice|normalize|normalized|biguint_from_vec)$", base) is not None
     for pat in RULES.get(pid, []):
@@ -61,4 +70,4 @@ def file_relevant(pid, key):
         return True                     # operator impls and forwarding macros live in every file
     return any(re.search(pat.split("::")[0] + "::", rel) for pat in RULES.get(pid, []))
 
-STRICT = set(RULES) | {"C04"}     # C14 and C16 decide through their own source-wide site lists
+STRICT = set(RULES) | {"C04", "C16"}     # C14 decides through its source-wide panic-site list; C16 is strict on the cfg-site functions only
